@@ -36,6 +36,14 @@ class Origins:
         self.inprog = set()
         self.params = body.param_names()
         self.upvars = body.upvar_names() if body.def_kind == "Closure" else {}
+        # locals whose own storage is borrowed mutably somewhere in the body: a callee may write
+        # through the borrow, so their reconstructed value is only a lower bound ("mut" marker)
+        self.mut_borrowed = set()
+        for _bb, _j, s in body.all_statements():
+            if s["k"] == "assign" and s["rv"]["k"] in ("ref", "rawptr"):
+                rv = s["rv"]
+                if (rv.get("mut") or rv["k"] == "rawptr") and not (rv["pl"]["p"] and rv["pl"]["p"][0]["k"] == "deref"):
+                    self.mut_borrowed.add(rv["pl"]["l"])
 
     # ---------------------------------------------------------------- reaching definitions
     def reaching_defs(self, local, bb, idx):
@@ -130,6 +138,10 @@ class Origins:
             elif k == "field":
                 ex = self.proj_field(ex, p)
             elif k == "downcast":
+                if ex[0] == "phi" and all(a[0] == "agg" and a[1] == "adt" for a in ex[1]):
+                    m = [a for a in ex[1] if a[3] == p["n"]]
+                    if m:
+                        ex = mk_phi(tuple(m))
                 ex = ("downcast", ex, p["n"])
             elif k == "index":
                 ex = ("index", ex, self.local(p["l"], bb, idx, depth + 1))
@@ -210,7 +222,10 @@ class Origins:
             alts = [("mut", a) for a in alts]
         if not alts:
             return ("uninit",)
-        return mk_phi(tuple(alts))
+        ex = mk_phi(tuple(alts))
+        if l in self.mut_borrowed and ex[0] != "mut":
+            ex = ("mut", ex)
+        return ex
 
     def call_ex(self, cs, depth):
         args = tuple(self.operand(a, cs.bb, len(self.body.blocks[cs.bb]["stmts"]), depth + 1) for a in cs.args)
